@@ -13,7 +13,10 @@ SEEDED = os.path.join(ROOT, "seeded")
 # signatures produced by a harness error that was found and corrected later (DESIGN.md §7.5); they are not evidence of anything
 RETRACTED_SIGS = {"C01:passthrough-differs:proxy_connection:reply:missing"}
 # delivered changes that were examined and NOT kept, with the reason (see DESIGN.md §7.7)
-REJECTED = {("C19", 8): "does not break the property as stated: one call fails on a stale connection, the next recovers"}
+REJECTED = {
+    ("C19", 8): "does not break the property as stated: one call fails on a stale connection, the next recovers",
+    ("C15", 12): "does not break the property as stated: when the connection dies of a protocol violation nothing reaches the wire at all, so no response precedes a connect-callback notification; delivery of frames still queued on such a connection is not promised",
+}
 
 
 def parse_results(paths):
